@@ -272,6 +272,18 @@ GlobalRefinePoint(m, P, ro, row, g) ==
     ELSE IF ro[3] # row[3] THEN "refine_value_changed"
     ELSE IF ro[4] = "nan" THEN "ok"
     ELSE IF ro[4] # "val" \/ ~OnGrid(ro[1], ro[2]) \/ ~InMap(m, ro[1] \div Q, ro[2] \div Q) THEN "ok"   \* judged by the rough part
+    ELSE IF P % 2 = 0 THEN
+         \* even patch sizes: the patch is sampled between cells (bilinear), so conformance to the cell-based Offset
+         \* does not apply; the property's own clauses do: finite, within half a patch, a bump centred on a cell is
+         \* unmoved and an off-grid centre is approached on every axis (Gaussian family only).  Seed C07_r5.
+         LET cell == <<ro[1] \div Q, ro[2] \div Q>>
+             dx == row[1] - Q * cell[1]
+             dy == row[2] - Q * cell[2]
+         IN IF row[4] # "val" THEN "refine_offset_mismatch"
+            ELSE IF 2 * Abs(dx) > P * Q + 16 \/ 2 * Abs(dy) > P * Q + 16 THEN "refine_bound"
+            ELSE IF g = <<>> THEN "ok"
+            ELSE IF AxisCloserObs(cell[1], row[1], g[1], 8) /\ AxisCloserObs(cell[2], row[2], g[2], 8) THEN "ok"
+            ELSE "gaussian_not_closer"
     ELSE LET cell == <<ro[1] \div Q, ro[2] \div Q>>
              pc == PointClause(m, cell, P, row[1], row[2], row[4])
          IN IF pc # "ok" \/ g = <<>> THEN pc
